@@ -266,10 +266,20 @@ func replayEdits(rep *run.Report, batch []editCase, prop string, serModes int) {
 					fail("read", abs.Value{K: 'a', Arr: c.docs}.String(), abs.Value{K: 'a', Arr: got}.String(), rd.Name+": "+cerr.Error())
 				}
 			}
+			// lookups agree with traversal: FindKey / FindPath for every key of every object, and an absent key
+			for _, p := range c.paths {
+				if lerr := lookupAt(pj, c.docs, p); lerr != nil {
+					fail("read", "FindKey/FindPath agree with traversal", "mismatch", fmt.Sprintf("at %v: %v", p, lerr))
+				}
+			}
 			// marshalling: whole tape, every inner value, fixed point
 			it := pj.Iter()
 			mb, merr := it.MarshalJSON()
-			if merr != nil {
+			if len(c.text) == 1 && c.text[0] == 0 { // the spec demands an error (non-finite float on the tape)
+				if merr == nil {
+					fail("marshal", "an error (non-finite float)", string(mb), "Iter.MarshalJSON(root)")
+				}
+			} else if merr != nil {
 				fail("marshal", string(c.text), "error", "Iter.MarshalJSON(root): "+merr.Error())
 			} else if !bytes.Equal(mb, c.text) {
 				fail("marshal", string(c.text), string(mb), "Iter.MarshalJSON(root)")
@@ -288,6 +298,12 @@ func replayEdits(rep *run.Report, batch []editCase, prop string, serModes int) {
 			for _, p := range c.paths {
 				want := c.subs[pathKey(p)]
 				for _, m := range marshalAt(pj, p) {
+					if len(want) == 1 && want[0] == 0 {
+						if m.err == nil {
+							fail("marshal", "an error (non-finite float)", string(m.out), fmt.Sprintf("%s at %v", m.api, p))
+						}
+						continue
+					}
 					if m.err != nil {
 						fail("marshal", string(want), "error", fmt.Sprintf("%s at %v: %v", m.api, p, m.err))
 					} else if !bytes.Equal(m.out, want) {
@@ -617,4 +633,78 @@ func rootsAreContainers(docs []abs.Value) bool {
 		}
 	}
 	return true
+}
+
+
+func docAt(docs []abs.Value, path []int) abs.Value {
+	v := docs[path[0]-1]
+	for _, c := range path[1:] {
+		if v.K == 'a' {
+			v = v.Arr[c-1]
+		} else {
+			v = v.Obj[c-1].Val
+		}
+	}
+	return v
+}
+
+// lookupAt checks Object.FindKey and Object.FindPath on the object at path
+// against the first member with each key in the specification's document.
+func lookupAt(pj *simdjson.ParsedJson, docs []abs.Value, path []int) (err error) {
+	defer func() {
+		if r := recover(); r != nil {
+			err = fmt.Errorf("PANIC: %v", r)
+		}
+	}()
+	want := docAt(docs, path)
+	if want.K != 'o' {
+		return nil
+	}
+	it, nerr := navScoped(pj, path)
+	if nerr != nil {
+		return nerr
+	}
+	seen := map[string]bool{}
+	for _, m := range want.Obj {
+		if seen[string(m.Key)] {
+			continue
+		}
+		seen[string(m.Key)] = true
+		cp := *it
+		obj, oerr := cp.Object(nil)
+		if oerr != nil {
+			return oerr
+		}
+		el := obj.FindKey(string(m.Key), nil)
+		if el == nil {
+			return fmt.Errorf("FindKey(%q) = nil, the object has that key", m.Key)
+		}
+		got, rerr := read.ValueOf(&el.Iter, el.Type)
+		if rerr != nil {
+			return rerr
+		}
+		if merr := abs.Match(m.Val, got, true); merr != nil {
+			return fmt.Errorf("FindKey(%q): %v", m.Key, merr)
+		}
+		el2, perr := obj.FindPath(nil, string(m.Key))
+		if perr != nil || el2 == nil {
+			return fmt.Errorf("FindPath(%q): %v", m.Key, perr)
+		}
+		got2, rerr := read.ValueOf(&el2.Iter, el2.Type)
+		if rerr != nil {
+			return rerr
+		}
+		if merr := abs.Match(m.Val, got2, true); merr != nil {
+			return fmt.Errorf("FindPath(%q): %v", m.Key, merr)
+		}
+	}
+	cp := *it
+	obj, oerr := cp.Object(nil)
+	if oerr != nil {
+		return oerr
+	}
+	if el := obj.FindKey("\x00no-such-key", nil); el != nil {
+		return fmt.Errorf("FindKey(absent) returned an element")
+	}
+	return nil
 }
